@@ -750,6 +750,8 @@ def plain(v):
     """comparable form of run-time values"""
     if isinstance(v, (CellsVal, SpaceVal, ModelVal)):
         return ("obj",) + v.ident()
+    if isinstance(v, tuple) and hasattr(v, "_fields"):
+        return type(v)(*[plain(x) for x in v])
     if isinstance(v, (list, tuple)):
         return type(v)(plain(x) for x in v)
     return v
